@@ -314,6 +314,8 @@ def escalate(rng, focus, tier):
 # ----------------------------------------------------------------------------- implementation
 
 _M = {}
+_CH = {"log": [], "rng": None}
+STATUS_CODE = {"ACTIVE": 0, "MERGING": 1, "INACTIVE": 2}
 
 
 def worker_init():
@@ -324,6 +326,18 @@ def worker_init():
     from nemoguardrails.colang.v2_x.runtime.flows import InternalEvent, State
     from nemoguardrails.colang.v2_x.runtime.runtime import create_flow_configs_from_flow_list
 
+    import random as _random
+    import types as _types
+
+    def _choice(seq):
+        idx = _CH["rng"].randrange(len(seq))
+        _CH["log"].append(idx)
+        return seq[idx]
+
+    # tie-breaks of the interpreter (`random.choice` in MergeHeads / action conflicts) are drawn from a per-sequence
+    # seeded generator and recorded, so that the head-level model can be given the same outcomes
+    sm.random = _types.SimpleNamespace(choice=_choice)
+    _CH["rng"] = _random.Random(0)
     _M.update(parse=parse_colang_file, ast=colang_ast, ex=expansion, sm=sm, InternalEvent=InternalEvent, State=State, cfgs=create_flow_configs_from_flow_list)
 
 
@@ -494,13 +508,18 @@ def run_e2e(case):
             sm.run_to_completion(st, _M["InternalEvent"](name="StartFlow", arguments={"flow_id": "main"}))
         obs["start_out"] = sorted({e.get("type") for e in st.outgoing_events})
         obs["main_after_start"] = _main_status(st)
+        obs["heads_init"] = _heads(st)
     except Exception as e:  # noqa
         obs["build_exc"] = f"{type(e).__name__}: {e}"[:300]
         return obs
     runs = []
     for seq in case["seqs"]:
         s = copy.deepcopy(st)
-        hits, extra, exc, which = [], set(), None, []
+        hits, extra, exc, which, heads = [], set(), None, [], []
+        import random as _random
+
+        _CH["rng"] = _random.Random(json.dumps([case["g"], seq]))
+        _CH["log"] = []
         try:
             with _quiet():
                 for a in seq:
@@ -509,11 +528,22 @@ def run_e2e(case):
                     hits.append(len(got))
                     which.extend(got)
                     extra.update(e.get("type") for e in s.outgoing_events if e.get("type") not in ("Hit", "Hit2"))
+                    if case["op"] == "match":
+                        heads.append(_heads(s))
         except Exception as e:  # noqa
             exc = f"{type(e).__name__}: {e}"[:200]
-        runs.append({"hits": hits, "which": which, "extra": sorted(extra), "exc": exc, "main": _main_status(s)})
+        runs.append({"hits": hits, "which": which, "extra": sorted(extra), "exc": exc, "main": _main_status(s), "heads": heads, "choices": list(_CH["log"])})
     obs["runs"] = runs
     return obs
+
+
+def _heads(st):
+    """all heads of the main flow: [position relative to the first element of the group statement, status code]"""
+    try:
+        fs = st.flow_id_states["main"][-1]
+        return sorted([h.position - 1, STATUS_CODE.get(h.status.name, 9)] for h in fs.heads.values())
+    except Exception as e:  # noqa
+        return [["?", type(e).__name__]]
 
 
 def ev_name(a):
@@ -541,7 +571,11 @@ def model_requests(case, obs):
         return [{"m": "C07.normalize", "g": obs["g_seen"]}]
     if kind == "expand":
         return [{"m": "C07.expand", "g": obs["g_seen"], "prims": obs.get("prims", [])}]
-    return [{"m": "C07.markers", "g": obs["g_seen"], "seqs": [finish_view(s) for s in case["seqs"]]}]
+    reqs = [{"m": "C07.markers", "g": obs["g_seen"], "seqs": [finish_view(s) for s in case["seqs"]]}]
+    if case["op"] == "match" and "runs" in obs:
+        # head-level machine with the tie-breaks the interpreter drew
+        reqs.append({"m": "C07.vm", "g": obs["g_seen"], "seqs": case["seqs"], "choices": [r["choices"] for r in obs["runs"]]})
+    return reqs
 
 
 def finish_view(seq):
@@ -592,6 +626,18 @@ def compare(case, obs, mouts):
         if not case["op"].endswith("f") and run["main"] != "STARTED":
             # model: after completion no head of the group is left, before completion the heads just wait
             return f"sequence {seq}: main flow ended in status {run['main']} (model: it keeps waiting on `match Never()`)"
+    if len(mouts) > 1:
+        v = mouts[1]
+        if not v["nonempty"]:
+            return None
+        if sorted(v["init"]) != obs.get("heads_init"):
+            return f"heads after the group statement was reached: implementation {obs.get('heads_init')}, head-level model {sorted(v['init'])}"
+        for seq, run, tr in zip(case["seqs"], obs["runs"], v["runs"]):
+            for k, (step, hreal) in enumerate(zip(tr, run["heads"])):
+                if (1 if step["m"] else 0) != run["hits"][k]:
+                    return f"sequence {seq} event {k}: head-level model marker {step['m']}, implementation hits {run['hits']} (tie-breaks {run['choices']})"
+                if sorted(step["heads"]) != hreal:
+                    return f"sequence {seq} event {k}: heads (position, status) implementation {hreal}, head-level model {sorted(step['heads'])} (tie-breaks {run['choices']})"
     return None
 
 
